@@ -119,7 +119,7 @@ func (e *Engine) typeKey(t types.Type) string {
 // leaves of a type in the current mode.
 func (e *Engine) leaves(t types.Type) []Leaf {
 	a := e.ar
-	if isTimeType(t) {
+	if isTimeType(t) || t == mathIntT {
 		return []Leaf{{"", "Int", t, lkTime}}
 	}
 	switch u := t.Underlying().(type) {
@@ -179,7 +179,7 @@ func (e *Engine) leaves(t types.Type) []Leaf {
 
 // flatten an SV of type t into its leaf terms.
 func (e *Engine) flatten(t types.Type, v SV) []string {
-	if isTimeType(t) {
+	if isTimeType(t) || t == mathIntT {
 		return []string{v.(*Sc).T}
 	}
 	switch u := t.Underlying().(type) {
@@ -258,7 +258,7 @@ func (e *Engine) ptrTerm(v SV) string {
 
 // unflatten builds an SV of type t from leaf terms; returns remaining terms.
 func (e *Engine) unflatten(t types.Type, ts []string) (SV, []string) {
-	if isTimeType(t) {
+	if isTimeType(t) || t == mathIntT {
 		return &Sc{ts[0]}, ts[1:]
 	}
 	switch u := t.Underlying().(type) {
